@@ -41,6 +41,9 @@ void harness(void)
     unsigned char s[VF_N + VF_CTX + 1];
     unsigned n = nondet_uint(), c = nondet_uint();
     VF_ASSUME(n <= VF_N && c <= VF_CTX);
+#ifdef VF_EXACT_N
+    n = VF_N;                  /* one query per length */
+#endif
     for (unsigned i = 0; i < VF_N + VF_CTX; i++) {
         unsigned char b = nondet_uchar();
 #if VF_OPT == 5322
